@@ -151,3 +151,50 @@ func H_C16_Replicate() {
 	vrt.Assert(!inv.IssueDate.IsZero(), "replica-has-an-issue-date")
 	vrt.Assert(src.Code != "" && src.UUID != "", "replication-source-untouched")
 }
+
+// H_C16_SourceHeader: whatever options are passed, correcting never writes into the source header: the header
+// (with its stamps) is frozen, options come as explicit stamps for the same or another provider and / or as a
+// raw JSON options object with or without a "stamps" member (decoded with encoding/json's documented re-use of
+// existing slice elements and pointed-to objects).
+func H_C16_SourceHeader() {
+	regimes := []l10n.TaxCountryCode{"", "ES", "MX"}
+	r := regimes[vrt.Choice("regime", len(regimes))]
+	src := &Invoice{Type: InvoiceTypeStandard, IssueDate: cal.MakeDate(2024, 2, 3), Currency: "EUR", Code: "1", Series: "A"}
+	if r != "" {
+		src.Regime = tax.WithRegime(r)
+	}
+	cd := src.correctionDef()
+	hdr := &head.Header{UUID: "0190c2a6-7c2a-7000-8000-000000000001"}
+	prov := cbc.Key("prov")
+	if len(cd.Stamps) > 0 && vrt.Choice("required-provider", 2) == 1 {
+		prov = cd.Stamps[0]
+	}
+	hdr.Stamps = append(hdr.Stamps, &head.Stamp{Provider: prov, Value: c16Str("h0")})
+	if vrt.Choice("two-stamps", 2) == 1 {
+		hdr.Stamps = append(hdr.Stamps, &head.Stamp{Provider: "second", Value: c16Str("h1")})
+	}
+	vrt.Freeze(hdr, "source envelope header")
+	opts := []schema.Option{Credit, WithReason("r"), head.WithHead(hdr)}
+	switch vrt.Choice("explicit", 3) {
+	case 1: // same provider, another value
+		opts = append(opts, WithStamps([]*head.Stamp{{Provider: prov, Value: "x" + c16Str("e0")}}))
+	case 2:
+		opts = append(opts, WithStamps([]*head.Stamp{{Provider: "third", Value: "y"}}))
+	}
+	switch vrt.Choice("data", 4) {
+	case 1:
+		opts = append(opts, WithData([]byte(`{"type":"credit-note","reason":"from data"}`)))
+	case 2:
+		opts = append(opts, WithData([]byte(`{"type":"credit-note","stamps":[{"prv":"prov","val":"changed"}]}`)))
+	case 3:
+		opts = append(opts, WithData([]byte(`{"type":"debit-note","stamps":[{"prv":"a","val":"1"},{"prv":"b","val":"2"},{"prv":"c","val":"3"}]}`)))
+	}
+	vrt.SetStub("invoice.Calculate", true)
+	inv := *src
+	err := inv.Correct(opts...)
+	vrt.Reach("correct-returned")
+	if err == nil {
+		vrt.Assert(len(inv.Preceding) == 1 && inv.Code == "", "corrected")
+	}
+	vrt.Assert(len(hdr.Stamps) >= 1 && hdr.Stamps[0].Provider == prov, "header-stamps-as-before")
+}
